@@ -89,7 +89,12 @@ def gen_history(rng, nops):
             continue
         if r < 0.4:
             p = rng.choice(pool) if rng.random() < 0.75 else [sec(rng), sec(rng)]
-            ops += [["order"], ["addlease", now, rng.choice([10 ** 12, 10 ** 12, 10 ** 12, 80, 0]), p[0], p[1]]]
+            if kind in ("imm1", "imm2") and rng.random() < 0.3:
+                # allocate_buckets for another share number: the lease goes onto every share already held; on a server
+                # without spare space (avail 0 / 50) no writer is created but known secrets are still renewed
+                ops += [["order"], ["alloc", now, rng.choice([0, 50, 10 ** 12]), rng.choice([7, 8]), rng.choice([5, 60]), p[0], p[1]]]
+            else:
+                ops += [["order"], ["addlease", now, rng.choice([10 ** 12, 10 ** 12, 10 ** 12, 80, 0, 0]), p[0], p[1]]]
         elif r < 0.65:
             s = rng.choice(pool)[0] if rng.random() < 0.7 else sec(rng)
             ops += [["order"], ["renew", now, s]]
@@ -198,7 +203,7 @@ class Monitor:
         ctx = self.ctx
         if phase == "before":
             self.opi += 1
-            if op[0] in ("addlease", "renew", "rtw", "cancel"):
+            if op[0] in ("addlease", "renew", "rtw", "cancel", "alloc"):
                 info["raw"] = impl.raw()
             if op[0] == "bwrite":
                 info["inc"] = impl.raw_incoming()
@@ -221,7 +226,7 @@ class Monitor:
                               {"share": n, "allocated_size": size, "write_end": end, "accepted": exc is None})
                 ctx.case((self.hi, self.opi))
             return
-        if kind not in ("addlease", "renew", "rtw", "cancel"):
+        if kind not in ("addlease", "renew", "rtw", "cancel", "alloc"):
             return
         raw0, raw1 = info["raw"], impl.raw()
         p0, p1 = self.parsed(raw0), self.parsed(raw1)
@@ -266,10 +271,23 @@ class Monitor:
                 if (r, c) not in have:
                     self.viol("a live lease record is not listed by get_leases after the operation",
                               "live-lease-not-listed-after-" + kind, {"share": n, "slot": slot, "holes_before": holes})
-        if kind in ("addlease", "rtw"):
-            if kind == "addlease":
-                (_, now, avail, renew, cancel) = op
+        if kind in ("addlease", "rtw", "alloc"):
+            if kind in ("addlease", "alloc"):
+                # add_lease, and allocate_buckets (which puts the lease on every share the bucket already holds)
+                if kind == "addlease":
+                    (_, now, avail, renew, cancel) = op
+                else:
+                    (_, now, avail, _n, _size, renew, cancel) = op
                 targets = [n for n in p1 if n in p0]
+                # "adding a lease whose renew secret already exists renews that lease": when EVERY share already holds
+                # the secret nothing has to be allocated, so the call cannot be refused for lack of space
+                knows = [n for n in p0 if any(l[3] == self.stored(raw0[n], unhx(renew)) for l in p0[n])]
+                if p0 and len(knows) == len(p0):
+                    ctx.count(kind + ":secret-known-to-every-share" + (":no-space" if avail < 72 else ""))
+                    if exc is not None:
+                        self.viol("adding a lease with a renew secret every share already holds raised %s instead of renewing"
+                                  % type(exc).__name__, "renew-by-add-refused:" + type(exc).__name__,
+                                  {"available_space": avail, "op": kind})
             else:
                 (_, now, avail, we, renew, cancel, rl, tw, rv) = op
                 targets = [n for n in p1 if n in p0 and rl and exc is None and n in [e[0] for e in tw]]
@@ -290,7 +308,7 @@ class Monitor:
                                   "duplicate-lease-added", {"share": n, "before": len(p0[n]), "after": len(p1[n]),
                                                             "holes_before": holes})
                     elif exc is not None:
-                        ctx.count("addlease:aborted-by-error")
+                        ctx.count(kind + ":aborted-by-error")
                     elif after[0][2] != max(before[0][2], new_exp):
                         self.viol("add with an existing renew secret did not set expiry to max(old, new)", "renew-expiry-wrong",
                                   {"share": n, "old": before[0][2], "new": new_exp, "got": after[0][2]})
@@ -336,7 +354,8 @@ def S(k):
 
 def corpus():
     """Fixed cases that run first in every run; one per known failure mechanism.  VERIF_CORPUS_ONLY=1 runs only these."""
-    return [corpus_growth_with_extra_leases(), corpus_holes(), corpus_upload_overrun(), corpus_secrets_ending_in_nul()]
+    return [corpus_growth_with_extra_leases(), corpus_holes(), corpus_upload_overrun(), corpus_secrets_ending_in_nul(),
+            corpus_renew_by_add_without_space()]
 
 
 def corpus_growth_with_extra_leases():
@@ -395,6 +414,23 @@ def corpus_secrets_ending_in_nul():
     # a v2 mutable share created by the server itself with such a secret, and an upload
     ops += [["rtw", 800002, 10 ** 12, WE, r2, c2, True, [[2, [], [[0, hx(b"more")]], None]], []], ["leases"],
             ["cancel", 0, "secret", c1], ["cancel", 3, "crawler", c2], ["leases"], ["dump"]]
+    return {"nodeid": hx(sc.NODEID), "ops": ops, "kind": "corpus"}
+
+
+def corpus_renew_by_add_without_space():
+    """a server with no spare space (read-only / reserved space exhausted: get_available_space() = 0): add_lease and
+    allocate_buckets with a renew secret the shares already hold must RENEW (expiry advances, count unchanged) — on
+    immutable v1 and v2 shares and on mutable ones; only a secret that needs a new record may be refused"""
+    la, lb = (1, 3000000, b"\x21" * 32, b"\x31" * 32), (1, 3000001, b"\x22" * 32, b"\x32" * 32)
+    hists_ops = []
+    for v in (1, 2):
+        hists_ops += [["put", v - 1, sc.rle(sc.fabricate_immutable(v, b"imm data v%d" % v, [la, lb]))]]
+    ops = hists_ops + [["leases"],
+           ["order"], ["addlease", 400000, 0, S(0x22), S(0x32)], ["leases"],
+           ["order"], ["addlease", 500000, 10, S(0x21), S(0x31)], ["leases"],
+           ["order"], ["alloc", 600000, 0, 5, 10, S(0x22), S(0x32)], ["leases"],
+           ["order"], ["addlease", 700000, 0, S(0x29), S(0x39)], ["leases"],      # fresh secret, no space: refused, nothing added
+           ["order"], ["renew", 800000, S(0x21)], ["leases"], ["dump"]]
     return {"nodeid": hx(sc.NODEID), "ops": ops, "kind": "corpus"}
 
 
